@@ -62,6 +62,31 @@ Definition pieces (p : string) : list string :=
   | None => []
   end.
 
+(** * equivalent spellings, executably (for the evaluator)
+
+    RFC 3986 §6.2.2 normal form: escapes of unreserved octets decoded, the other
+    escapes written with upper-case hex digits.  Two well-formed paths are
+    equivalent re-encodings of each other when their normal forms are equal
+    ([reenc p p' -> equiv_paths p p' = true] is proved in C08/Proofs.v). *)
+Fixpoint norm (s : string) : string :=
+  match s with
+  | EmptyString => EmptyString
+  | String c r =>
+    match r with
+    | String a (String b r') =>
+      if Ascii.eqb c "%"%char && ishex a && ishex b then
+        let v := hexbyte a b in
+        if unreserved v then String v (norm r') else pct_triplet v (norm r')
+      else String c (norm r)
+    | _ => String c (norm r)
+    end
+  end.
+
+Definition wellformed (s : string) : bool := match unescape s with Some _ => true | None => false end.
+
+Definition equiv_paths (a b : string) : bool :=
+  wellformed a && wellformed b && String.eqb (norm a) (norm b).
+
 (** * guards of the findings *)
 
 (** C08-F1: the lookup compares literal segments of the path expressions with
